@@ -75,6 +75,12 @@ ApplySeq(g, ds, i, lg) == IF i > Len(ds) THEN [log |-> lg, ok |-> TRUE]
                           ELSE IF ConvOK(g, ds[i]) THEN ApplySeq(g, ds, i + 1, Append(lg, ds[i]))
                           ELSE [log |-> lg, ok |-> FALSE]
 
+\* index of the capture at which ApplySeq stops with a conversion error (0 if none)
+RECURSIVE FirstBad(_, _, _)
+FirstBad(g, ds, i) == IF i > Len(ds) THEN 0
+                      ELSE IF ~ConvKnown(g, ds[i]) THEN 0
+                      ELSE IF ConvOK(g, ds[i]) THEN FirstBad(g, ds, i + 1) ELSE i
+
 RECURSIVE Eval(_, _, _, _)
 RECURSIVE EvalSeq(_, _, _, _, _, _, _)
 RECURSIVE EvalAlt(_, _, _, _, _, _)
